@@ -73,9 +73,11 @@ Definition regex_id (r : regexdef) : option N :=
   | RLit [94; 91; 97; 45; 122; 93; 43; 36]%N => Some 0%N
   | RLit [64]%N => Some 1%N
   | RLit [94; 46; 123; 50; 44; 52; 125; 36]%N => Some 2%N
+  | RLit [98; 123; 50; 125]%N => Some 3%N                 (* b{2} : a counted repetition, unanchored *)
   | RPath "RE0" => Some 0%N
   | RPath "RE1" => Some 1%N
   | RPath "RE2" => Some 2%N
+  | RPath "RE3" => Some 3%N
   | _ => None
   end.
 
@@ -85,5 +87,10 @@ Definition regex_match (r : regexdef) (s : list N) : bool :=
                 forallb (fun c => (97 <=? c)%N && (c <=? 122)%N) s
   | Some 1%N => existsb (N.eqb 64) s
   | Some 2%N => (2 <=? List.length s)%nat && (List.length s <=? 4)%nat && forallb (fun c => negb (N.eqb c 10)) s
+  | Some 3%N => (fix two (l : list N) : bool :=
+                   match l with
+                   | a :: ((b :: _) as r) => (N.eqb a 98 && N.eqb b 98) || two r
+                   | _ => false
+                   end) s
   | _ => false
   end.
